@@ -41,6 +41,7 @@ class Trace(object):
         self.first_div = None        # (idx, cmd, what, mechanism) of the earliest divergence (reporting only)
         self.div_active = {}
         self.div_log = []
+        self.taints = []             # dict(start, end, mech): see mechanism_at
         self.diag = []               # diagnostic invariant failures (never a verdict)
         self.slow = 0
         self.exc = None              # (idx, cmd, repr) exception raised by the code under observation
@@ -52,6 +53,16 @@ class Trace(object):
         tracking divergence that is active at that step; None when there is none or it is unexplained."""
         lo = idx if since is None else min(idx, since)
         act = [e for e in self.div_log if e["start"] <= idx and (e["end"] is None or lo < e["end"])]
+        taint = [t for t in self.taints if t["start"] <= idx and (t["end"] is None or lo < t["end"])]
+        if taint:
+            # an arc was executed in relative positioning (K3): the filter's samples, decisions and tracked position from
+            # there on are unreliable even when the tracked position happens to agree; attributed to K3 unless an earlier
+            # unexplained divergence is still active
+            t0 = min(t["start"] for t in taint)
+            if any(e["mech"] is None and e["start"] < t0 for e in act):
+                return None
+            earlier = [e for e in act if e["start"] < t0]
+            return min(earlier, key=lambda e: e["start"])["mech"] if earlier else taint[0]["mech"]
         if not act:
             return None
         first = min(act, key=lambda e: e["start"])
@@ -257,6 +268,10 @@ class Engine(object):
             self.homed = True
             if self.open:
                 raise Truncated("g28-inside-episode")
+            if not any(l in "XYZ" for l, _ in words):
+                for t in self.trace.taints:
+                    if t["end"] is None:
+                        t["end"] = rec["idx"]
             return
         if not self.homed:
             return
@@ -274,6 +289,8 @@ class Engine(object):
             if samples is not None:
                 rec["is_move"] = True
                 rec["move_kind"] = "arc"
+                if not Bb["abs_xyz"] and not any(t["end"] is None for t in self.trace.taints):
+                    self.trace.taints.append(dict(start=rec["idx"], end=None, mech="arc_under_g91"))
                 unit, shift = Bb["unit"], Bb["shift"]
                 pts = [(samples[k] * unit + shift[0], samples[k + 1] * unit + shift[1])
                        for k in range(0, len(samples) - 1, 2)]
@@ -346,7 +363,7 @@ class Engine(object):
             if self.open:
                 self._close(rec, "newprint")
             self.trace.div_active = {}
-            for e in self.trace.div_log:
+            for e in self.trace.div_log + self.trace.taints:
                 if e["end"] is None:
                     e["end"] = rec["idx"]
         elif name in END_EVENTS:
